@@ -112,6 +112,24 @@ ADD4 = {
 for _k, _v in ADD4.items():
     CLAIMS[_k]["text"] += " " + _v
 
+# clauses added in round 6
+ADD6 = {
+ "C01": "Round 6: in pagination/pattern index and slice bounds are decided by a small linear-arithmetic prover over the comparisons that dominate the expression (mandatory for a string parameter indexed by stored offsets; elsewhere whenever the function itself compares the two sides).",
+ "C05": "Round 6: no parser of the module runs with scripting disabled.",
+ "C06": "Round 6: the reference is the value trimmed of ASCII white space only; data:/javascript: in any case; srcset descriptors with an exponent; ContentImages holds only what the elements' URL readers return.",
+ "C08": "Round 6: Result.Node is not touched after the HTML rendering was parsed.",
+ "C09": "Round 6: the InnerText collector pads every text node and nothing gets around it (C04-V5 shared); Result.Node is not touched after parsing.",
+ "C10": "Round 6: filter-in-place appends into storage of the caller's document are seen through merges.",
+ "C11": "Round 6: module code fills no synchronised container or atomic counter.",
+ "C12": "Round 6: field stores through pointer parameters are instantiated at the call sites (records of a package-level table handed out by pointer).",
+ "C14": "Round 6: the InnerText collector rule (C04-V5) is shared: text values read from elements leave out hidden parts, the element asked for included.",
+ "C15": "Round 6: MarkupInfo.Title is the unchanged Title() answer.",
+ "C19": "Round 6: frame addresses are resolved against the caller's page URL only (C06-U6 shared).",
+ "C20": "Round 6: the word counter for the threshold is chosen from the whole text of the document element.",
+}
+for _k, _v in ADD6.items():
+    CLAIMS[_k]["text"] += " " + _v
+
 checks, na = [], []
 for p in props:
     pid = p['id']
